@@ -114,6 +114,11 @@ def strElem (cfg : Cfg) (inc : Nat) (k : Str) (indent : Nat) (s : Str) : Str :=
 def entryPrefix (cfg : Cfg) (k : Str) (indent : Nat) (nonEmpty : Bool) : Str :=
   if !cfg.layout.contains k then (if nonEmpty then ['\n'] else []) ++ spaces indent else []
 
+/-- a `str` item of a list (`parent` is a `str`): one CDATA section is passed through as it is,
+anything else goes through `translate` -/
+def itemText (cfg : Cfg) (s : Str) : Str :=
+  if isCdataValue cfg s then s else escape cfg.table s
+
 mutual
 /-- `__xml(parent, indent, inc_indent)`.  An empty list makes Python return `None`, which every
 reachable caller concatenates to a `str` (`TypeError`); the model raises at once. -/
@@ -121,7 +126,7 @@ def xmlVal (cfg : Cfg) (inc : Nat) : Val → Nat → PyM Str
   | .none, _ => .ok []
   | .dict _ kvs, indent => xmlEntries cfg inc kvs indent false
   | .list _ xs, indent => if xs.isEmpty then .error .TypeError else xmlItems cfg inc xs indent true
-  | .str s, _ => .ok s
+  | .str s, _ => .ok (itemText cfg s)
   | .int i, _ => .ok (intRepr i)
   | .flt r, _ => .ok r
   | .bool true, _ => .ok ['T', 'r', 'u', 'e']
@@ -133,14 +138,15 @@ def xmlItems (cfg : Cfg) (inc : Nat) : List Val → Nat → Bool → PyM Str
       let r ← xmlVal cfg inc x (indent + inc)
       let rest ← xmlItems cfg inc xs indent false
       .ok ((if first then [] else ['\n']) ++ r ++ rest)
-/-- list value of a key: `for subitm in value: "\n" + __xml(subitm, indent+inc)` -/
+/-- list value of a key that is still a list inside the entry loop (a list nested directly in a
+list): `for subitm in value: "\n" + __xml(subitm, indent+inc)` -/
 def xmlSubitems (cfg : Cfg) (inc : Nat) : List Val → Nat → PyM Str
   | [], _ => .ok []
   | x :: xs, indent => do
       let r ← xmlVal cfg inc x (indent + inc)
       let rest ← xmlSubitems cfg inc xs indent
       .ok (['\n'] ++ r ++ rest)
-/-- body of the `for key, value in parent.items()` loop, after the prefix -/
+/-- body of the `for key, value in items` loop, after the prefix -/
 def xmlEntry (cfg : Cfg) (inc : Nat) (k : Str) : Val → Nat → PyM Str
   | .list _ xs, indent =>
       if xs.isEmpty then .ok (emptyTag k [])
@@ -158,9 +164,30 @@ def xmlEntry (cfg : Cfg) (inc : Nat) (k : Str) : Val → Nat → PyM Str
       let att ← attribs kvs
       .ok (dictElem cfg k indent sub att)
   | .none, _ => .ok (emptyTag k [])
-/-- the loop over a dict's entries; `nonEmpty` is the truth value of `result` so far -/
+/-- the entries `(key, item)` a non-empty list value stands for (`items.extend((key, subitm) ...)`),
+run through the loop body one after the other; returns the text and the truth value of `result` -/
+def xmlRepeat (cfg : Cfg) (inc : Nat) (k : Str) : List Val → Nat → Bool → PyM (Str × Bool)
+  | [], _, nonEmpty => .ok ([], nonEmpty)
+  | x :: xs, indent, nonEmpty => do
+      let body ← xmlEntry cfg inc k x indent
+      let piece := entryPrefix cfg k indent nonEmpty ++ body
+      let r ← xmlRepeat cfg inc k xs indent (nonEmpty || !piece.isEmpty)
+      .ok (piece ++ r.1, r.2)
+/-- the loop over a dict's entries, a non-empty list expanded into one entry per item (the Python
+builds the expanded `items` first and then loops; no branch of the expansion can raise);
+`nonEmpty` is the truth value of `result` so far -/
 def xmlEntries (cfg : Cfg) (inc : Nat) : List (Str × Val) → Nat → Bool → PyM Str
   | [], _, _ => .ok []
+  | (k, .list c xs) :: rest, indent, nonEmpty =>
+      if xs.isEmpty then do
+        let body ← xmlEntry cfg inc k (.list c xs) indent
+        let piece := entryPrefix cfg k indent nonEmpty ++ body
+        let r ← xmlEntries cfg inc rest indent (nonEmpty || !piece.isEmpty)
+        .ok (piece ++ r)
+      else do
+        let p ← xmlRepeat cfg inc k xs indent nonEmpty
+        let r ← xmlEntries cfg inc rest indent p.2
+        .ok (p.1 ++ r)
   | (k, v) :: rest, indent, nonEmpty => do
       let body ← xmlEntry cfg inc k v indent
       let piece := entryPrefix cfg k indent nonEmpty ++ body
@@ -501,13 +528,18 @@ def isXmlText (s : Str) : Bool := s.all isXmlChar
 def isFloatLexeme (r : Str) : Bool :=
   !r.isEmpty && r.all (fun c => isAsciiDigit c || c = '.' || c = '-' || c = '+' || c = 'e' || c = 'i' || c = 'n' || c = 'f' || c = 'a')
 
+def isListVal : Val → Bool
+  | .list .. => true
+  | _ => false
+
 def keysNodup : List (Str × Val) → Bool
   | [] => true
   | (k, _) :: rest => !(rest.any (fun p => p.1 = k)) && keysNodup rest
 
 mutual
 /-- element content: text, None, number, nested elements; `lists` says whether repeated elements
-(lists of text or of records) are admitted -/
+(non-empty lists whose items are element content other than a list: text, records, also `None`
+and numbers) are admitted -/
 def shapedVal (lists : Bool) : Val → Bool
   | .none => true
   | .str s => isXmlText s
@@ -521,16 +553,12 @@ def shapedKvs (lists : Bool) : List (Str × Val) → Bool
   | (k, v) :: rest => isName k && shapedVal lists v && shapedKvs lists rest
 def shapedItems (lists : Bool) : List Val → Bool
   | [] => true
-  | x :: xs =>
-    (match x with
-     | .str s => isXmlText s
-     | .dict _ kvs => keysNodup kvs && shapedKvs lists kvs
-     | _ => false) && shapedItems lists xs
+  | x :: xs => !isListVal x && shapedVal lists x && shapedItems lists xs
 end
 
 /-- a document: one root element that is not itself repeated -/
 def xmlShaped (lists : Bool) : Val → Bool
-  | .dict _ [(k, v)] => isName k && shapedVal lists v && (match v with | .list .. => false | _ => true)
+  | .dict _ [(k, v)] => isName k && shapedVal lists v && !isListVal v
   | _ => false
 
 def isGoodOpts (o : Opts) : Bool :=
